@@ -20,6 +20,36 @@ OPMOD = {'eq': 'Eq', 'lt': 'Lt', 'le': 'LtE', 'gt': 'Gt', 'ge': 'GtE'}
 
 
 class MatcherPolicy(RepoPolicy):
+    def call_target(self, call, frame, for_with=False):
+        t = RepoPolicy.call_target(self, call, frame, for_with)
+        if t.label.startswith('local-callable:') and isinstance(call.func, ast.Name):
+            # a callable picked from a module-level table of library functions (e.g. operator.lt): union of their effects
+            from ..resolve import LIB_FUNCS
+            fn = frame.func
+            assigns = [n for n in walk_own(fn.node) if isinstance(n, ast.Assign) and
+                       any(isinstance(x, ast.Name) and x.id == call.func.id for x in n.targets)]
+            if len(assigns) == 1:
+                v = assigns[0].value
+                tbl = None
+                if isinstance(v, ast.Subscript) and isinstance(v.value, ast.Name):
+                    tbl = v.value.id
+                if isinstance(v, ast.Call) and isinstance(v.func, ast.Attribute) and v.func.attr == 'get' and isinstance(v.func.value, ast.Name):
+                    tbl = v.func.value.id
+                lit = fn.module.globals.get(tbl) if tbl else None
+                if isinstance(lit, ast.Dict):
+                    raises = set()
+                    ok = True
+                    for val in lit.values:
+                        d = self.dotted(val, fn.module) if isinstance(val, ast.Attribute) else None
+                        if d in LIB_FUNCS:
+                            raises |= set(self._atoms(LIB_FUNCS[d]))
+                        else:
+                            ok = False
+                    if ok:
+                        from ..cfg import Target
+                        return Target('opaque', 'lib-table:%s[...]' % tbl, raises=frozenset(raises), role='lib')
+        return t
+
     def subscript_raises(self, node, frame):
         return frozenset({self.excm.atom_of('KeyError'), self.excm.atom_of('TypeError')})
 
